@@ -110,6 +110,7 @@ type Result struct {
 }
 
 type Engine struct {
+	Dir     string // the source tree the program was loaded from
 	Prog    *ssa.Program
 	Pkg     *ssa.Package // package holding the harness
 	Sizes   types.Sizes
